@@ -76,6 +76,8 @@ func runPlan(t *testing.T, def *PropDef, p *Plan) (res *Result) {
 			res = &Result{Infra: fmt.Sprintf("harness panic: %v\n%s\nALL GOROUTINES:\n%s", r, debug.Stack(), filterStacks(string(buf[:n])))}
 		}
 	}()
+	watchBegin(p)
+	defer watchEnd()
 	if def.NoBubble {
 		return def.Run(p)
 	}
@@ -103,6 +105,18 @@ func runPlan(t *testing.T, def *PropDef, p *Plan) (res *Result) {
 		res = &Result{Infra: "run produced no result"}
 	}
 	return res
+}
+
+// noteCurrentPlan records the plan about to run next to the result file: if the Go runtime kills the process
+// (a fatal error cannot be recovered), the driver knows which plan did it.
+func noteCurrentPlan(outPath string, p *Plan, k int) {
+	if outPath == "" {
+		return
+	}
+	b, err := json.Marshal(map[string]any{"plan": p, "k": k})
+	if err == nil {
+		_ = os.WriteFile(outPath+".cur", b, 0o644)
+	}
 }
 
 var curT *testing.T
@@ -135,6 +149,14 @@ func TestSim(t *testing.T) {
 		}
 	}
 
+	if prop == "C16" {
+		go hangWatch(func(p *Plan, v Violation, stacks string) {
+			out.Runs++
+			out.Violations = append(out.Violations, violationOut{Plan: p, Viol: []Violation{v}, Log: strings.Split(stacks, "\n")})
+			write()
+		})
+	}
+
 	if planPath := os.Getenv("VERIF_PLAN"); planPath != "" {
 		b, err := os.ReadFile(planPath)
 		if err != nil {
@@ -153,6 +175,7 @@ func TestSim(t *testing.T) {
 			plans = []*Plan{&p}
 		}
 		for i, p := range plans {
+			noteCurrentPlan(outPath, p, i)
 			res := runPlan(t, def, p)
 			attachRaces(res)
 			out.Runs++
@@ -194,6 +217,7 @@ func TestSim(t *testing.T) {
 		p := def.Gen(NewRng(seed), tier, idx)
 		p.Prop, p.Seed, p.Index, p.Tier = prop, seed, idx, tier
 		t0 := time.Now()
+		noteCurrentPlan(outPath, p, 0)
 		res := runPlan(t, def, p)
 		attachRaces(res)
 		if time.Since(t0) > 90*time.Second {
